@@ -5,12 +5,12 @@ import Y0.Driver.Graph
 namespace Y0.Driver
 open Y0 Sexp Codec
 
-def optExprToSexp : Option Expr → Sexp
+def tianOptExprToSexp : Option Expr → Sexp
   | none => .atom "none"
   | some e => exprToSexp e
 
 /-- `()` is `None`, `(v)` is the vertex `v` -/
-def asOptNat? : Sexp → Option (Option Nat)
+def tianOptNat? : Sexp → Option (Option Nat)
   | .list [] => some none
   | .list [x] => do pure (some (← asNat? x))
   | _ => none
@@ -18,7 +18,7 @@ def asOptNat? : Sexp → Option (Option Nat)
 def handleTian (op : String) (args : List Sexp) : Option Sexp := do
   match op, args with
   | "identify", [g, c, t, q, topo] =>
-      pure (exceptToSexp optExprToSexp
+      pure (exceptToSexp tianOptExprToSexp
         (Tian.identify (← parseGraph g) (← asNats? c) (← asNats? t) (← exprOf? q) (← asNats? topo)))
   | "c_factor", [d, h, q, topo] =>
       pure (exceptToSexp exprToSexp (Tian.computeCFactor (← asNats? d) (← asNats? h) (← exprOf? q) (← asNats? topo)))
@@ -27,7 +27,7 @@ def handleTian (op : String) (args : List Sexp) : Option Sexp := do
   | "lemma4", [d, q, topo] =>
       pure (exceptToSexp exprToSexp (Tian.lemma4 (← asNats? d) (← exprOf? q) (← asNats? topo)))
   | "low_index", [v, q, topo] =>
-      pure (exceptToSexp exprToSexp (Tian.lowIndex (← asOptNat? v) (← exprOf? q) (← asNats? topo)))
+      pure (exceptToSexp exprToSexp (Tian.lowIndex (← tianOptNat? v) (← exprOf? q) (← asNats? topo)))
   | "ancestral", [a, h, q, topo] =>
       pure (exceptToSexp exprToSexp (Tian.ancestralQ (← asNats? a) (← asNats? h) (← exprOf? q) (← asNats? topo)))
   | _, _ => none
